@@ -2333,6 +2333,37 @@ func (f *folder) iterTransfer(fn *ssa.Function, args []fval) (fval, bool, error)
 			return top, true, fmt.Errorf("maps.Collect: a pair that is not known")
 		}
 		return fval{cv: mv, t: mv.T}, true, nil
+	case "slices.Concat":
+		// doc: a new slice concatenating the passed in slices
+		if len(args) != 1 {
+			return top, false, nil
+		}
+		nl := &ListV{T: fn.Signature.Results().At(0).Type()}
+		st, ok := nl.T.Underlying().(*types.Slice)
+		if !ok {
+			return top, false, nil
+		}
+		parts, ok := f.sliceElems(args[0], f.heap)
+		if !ok {
+			return top, true, fmt.Errorf("slices.Concat: the list of slices is not known")
+		}
+		for _, p := range parts {
+			es, ok := f.sliceElems(p, f.heap)
+			if !ok {
+				return top, true, fmt.Errorf("slices.Concat: a slice that is not known")
+			}
+			for _, e := range es {
+				ev, ok := toVal(e, st.Elem(), f.c)
+				if !ok {
+					return top, true, fmt.Errorf("slices.Concat: an element that is not known")
+				}
+				nl.Elems = append(nl.Elems, ev)
+			}
+		}
+		if len(nl.Elems) == 0 {
+			return fval{isNil: true, t: nl.T}, true, nil
+		}
+		return fval{cv: nl, t: nl.T}, true, nil
 	case "slices.SortedFunc", "slices.SortedStableFunc":
 		// doc: collects the values of seq into a new slice and sorts it with cmp. The sort is not stable: two different
 		// elements the comparator calls equal have no defined order (an error here)
